@@ -59,11 +59,36 @@ func applyOp(t *engine.T, st startState, sandbox, dir string, w *world, o op, fa
 	before := listTree(sandbox)
 	var res result
 	var d *sbom.Document
+	recording := SeamOn() && !faulted
+	if recording {
+		vfs.Reset(vfs.Record)
+	}
 	if o.Kind == "store" {
 		d = docVariant(o.Doc, o.ID)
 		res = doStore(dir, d, o.NoClobber)
 	} else {
 		res = doRetrieve(dir, o.ID)
+	}
+	if recording {
+		// every path a mutating step touched lies under the configured directory (or is the directory / one of its
+		// missing parents being created)
+		log := vfs.Log()
+		vfs.Reset(vfs.Passthrough)
+		for _, s := range log {
+			if !s.Mutating {
+				continue
+			}
+			for _, p := range []string{s.Path, s.Path2} {
+				if p == "" {
+					continue
+				}
+				cp := filepath.Clean(p)
+				if cp == dir || strings.HasPrefix(cp, dir+string(os.PathSeparator)) || strings.HasPrefix(dir, cp+string(os.PathSeparator)) && s.Kind == "mkdir" {
+					continue
+				}
+				return "confinement", fmt.Sprintf("%s touched %q (%s) outside the configured directory %q", o, p, s.Kind, dir)
+			}
+		}
 	}
 	t.Transitions(1)
 	t.Validated(1)
@@ -312,7 +337,7 @@ func collisions(c *engine.Ctx) {
 // overwrites: every ordered pair of documents (including two of equal encoded length) stored under one identifier.
 func overwrites(c *engine.Ctx) {
 	c.Group("overwrite-pairs")
-	kinds := []string{"d1", "d2", "meta", "d3", "e1", "e2"}
+	kinds := []string{"d1", "d2", "meta", "d3", "e1", "e2", "unk"}
 	c.Bound("overwrite-pairs", fmt.Sprintf("all %d ordered pairs of %d documents (two of equal encoded length) stored one after the other under the same identifier x both no-clobber settings x 2 identifiers", len(kinds)*len(kinds), len(kinds)))
 	for _, id := range []string{"a", "é✓"} {
 		for _, k1 := range kinds {
